@@ -500,6 +500,32 @@ func generateMore(suite string, seed uint64, i int, r *rng, id string, g gp) *Ca
 		}
 		return &Case{ID: id, Op: "multi", Arg: map[string]any{"rel": "rename", "map": mm},
 			Runs: []Run{{cfg, edges}, {&cfg2, e2}}}
+	case "union-big": // C09: one component of 51..70 nodes listed first, then one or two small ones (a decision taken for a big component
+		// must not stick for the components processed after it); the network simplex positioner in most cases
+		var all [][]string
+		n0 := r.rangeIn(51, 70)
+		for i := 1; i < n0; i++ {
+			p := i - 1
+			if r.chance(1, 3) {
+				p = r.intn(i)
+			}
+			all = append(all, []string{"A" + strconv.Itoa(p), "A" + strconv.Itoa(i)})
+		}
+		for c := r.rangeIn(1, 2); c > 0; c-- {
+			g.comps = false
+			g.maxN, g.maxM = 6, 9
+			es, _ := genGraph(r, g)
+			pre := string(rune('a'+c)) + "_"
+			for _, e := range es {
+				all = append(all, []string{pre + e[0], pre + e[1]})
+			}
+		}
+		cfg := genCfg(r, cp{p1: []int{0, 1}, p2: []int{0, 1}, p4: []int{3, 3, 3, 0, 4}, bk: allBK, p5: []int{0, 1, 2, 4}, virt: 1, sizes: 1}, usedNames(all))
+		runs := []Run{{cfg, all}}
+		for _, comp := range componentsOf(all) {
+			runs = append(runs, Run{cfg, comp})
+		}
+		return &Case{ID: id, Op: "multi", Arg: map[string]any{"rel": "union"}, Runs: runs}
 	case "union-many": // C09: more than 100 nodes in total, spread over dozens of small components (whole-input quantities leaking
 		// into a component: thresholds on len(G.Nodes), budgets, scratch sizes)
 		k := r.rangeIn(34, 45)
